@@ -141,13 +141,19 @@ class LiftedSource:
             return a == b
         return abs(a - b) <= tol * scale
 
-    def close(self, a, b, tol=1e-12):
+    def close(self, a, b, tol=1e-12, scale=None):
         """a ~ b as polynomials in the solver variables: every coefficient of a-b is at most tol times the largest coefficient of b
-        (used where the library itself computes with inexact float constants such as 1/3).  Implies |a-b| <= tol*max|coef(b)|*sum|monomials|."""
+        (used where the library itself computes with inexact float constants such as 1/3).  Implies |a-b| <= tol*max|coef(b)|*sum|monomials|.
+        If that syntactic check fails (e.g. on a path whose condition pins a variable, where a-b need not vanish identically) and a
+        scale is given, the obligation |a-b| <= tol*scale is returned for the solver instead."""
         d = SymNum.coerce(a - b)
         bb = SymNum.coerce(b)
         ref = max([abs(c) for c in bb.terms.values()] + [Fraction(1)])
-        return all(abs(c) <= Fraction(tol) * ref for c in d.terms.values())
+        if all(abs(c) <= Fraction(tol) * ref for c in d.terms.values()):
+            return True
+        if scale is None:
+            return False
+        return abs(a - b) <= scale * tol
 
     def observe(self, name, value):
         self.ctx.observations.append((name, value))
@@ -306,7 +312,7 @@ class ConcreteSource:
         b = float(b)
         return abs(a - b) <= CONC_TOL * max(1.0, abs(scale), abs(a), abs(b))
 
-    def close(self, a, b, tol=1e-12):
+    def close(self, a, b, tol=1e-12, scale=None):
         a = float(a)
         b = float(b)
         return abs(a - b) <= CONC_TOL * max(1.0, abs(a), abs(b))
